@@ -3,6 +3,7 @@
 //! `fails.jsonl` (property predicates evaluated on the implementation alone) and `stats.json`.
 mod util;
 mod c09;
+mod c05;
 
 use util::Out;
 
@@ -19,6 +20,7 @@ fn main() {
     let mut out = Out::new(prop);
     match prop {
         "C09" => c09::run(&mut out),
+        "C05" => c05::run(&mut out),
         _ => {
             eprintln!("unknown property {prop}");
             std::process::exit(2);
